@@ -210,10 +210,36 @@ func Scratch() string {
 	signal.Notify(ch, syscall.SIGINT, syscall.SIGTERM, syscall.SIGHUP)
 	go func() {
 		<-ch
+		for _, f := range onSignal {
+			f()
+		}
 		_ = os.RemoveAll(scratchRoot)
 		os.Exit(2)
 	}()
 	return scratchRoot
+}
+
+// onSignal holds extra clean-ups for an interrupted run (the parent kills its
+// workers and removes their scratch directories).
+var onSignal []func()
+
+// SweepStale removes scratch directories left by processes of this engine
+// that no longer exist (killed with SIGKILL, machine reset).
+func SweepStale() {
+	base := filepath.Dir(ScratchOf(0))
+	ents, err := os.ReadDir(base)
+	if err != nil {
+		return
+	}
+	for _, e := range ents {
+		var pid int
+		if n, _ := fmt.Sscanf(e.Name(), "verif-crash.%d", &pid); n != 1 || pid <= 0 || pid == os.Getpid() {
+			continue
+		}
+		if err := syscall.Kill(pid, 0); err == syscall.ESRCH {
+			_ = os.RemoveAll(filepath.Join(base, e.Name()))
+		}
+	}
 }
 
 // ScratchOf is the scratch directory of another process of this engine.
@@ -277,6 +303,7 @@ type DirEntryInfo struct {
 type Image struct {
 	Hash    uint64
 	Entries []DirEntryInfo
+	Pre     int // untouched pre-existing snapshot directories (not listed)
 }
 
 func (im *Image) String() string {
@@ -291,7 +318,10 @@ func (im *Image) String() string {
 			fmt.Fprintf(&b, "%s[%dB]", e.Path, e.Size)
 		}
 	}
-	if len(im.Entries) == 0 {
+	if im.Pre > 0 {
+		fmt.Fprintf(&b, " (+%d pre-existing snapshot directories)", im.Pre)
+	}
+	if len(im.Entries) == 0 && im.Pre == 0 {
 		return "(empty)"
 	}
 	return b.String()
@@ -299,7 +329,12 @@ func (im *Image) String() string {
 
 // TakeImage digests the tree under root with the real os package (never
 // intercepted).
-func TakeImage(root string) *Image {
+func TakeImage(root string) *Image { return TakeImageSkip(root, nil) }
+
+// TakeImageSkip is TakeImage, except that directories whose base name is in
+// skip (pre-existing snapshots laid down from a template, which no run may
+// modify) are represented by their rank only and not descended into.
+func TakeImageSkip(root string, skip map[string]bool) *Image {
 	im := &Image{}
 	h := fnv.New64a()
 	var walk func(dir, rel string)
@@ -317,6 +352,11 @@ func TakeImage(root string) *Image {
 				rank++
 			}
 			p := filepath.Join(rel, shown)
+			if e.IsDir() && skip[name] {
+				fmt.Fprintf(h, "P %s\n", p)
+				im.Pre++
+				continue
+			}
 			if e.IsDir() {
 				fmt.Fprintf(h, "D %s\n", p)
 				im.Entries = append(im.Entries, DirEntryInfo{Path: p, Dir: true})
@@ -365,7 +405,15 @@ type Failure struct {
 }
 
 func failf(sig, format string, a ...any) *Failure {
-	return &Failure{Sig: sig, Detail: fmt.Sprintf(format, a...)}
+	d := fmt.Sprintf(format, a...)
+	// protobuf-go varies the space in its error texts from build to build
+	d = strings.ReplaceAll(d, "\u00a0", " ")
+	if scratchRoot != "" {
+		// details must not depend on the process id
+		d = strings.ReplaceAll(d, filepath.Join(scratchRoot, "run"), "<dir>")
+		d = strings.ReplaceAll(d, scratchRoot, "<scratch>")
+	}
+	return &Failure{Sig: sig, Detail: d}
 }
 
 func errClass(err error) string {
